@@ -164,6 +164,12 @@ class Summariser:
         return None
 
     def no_alias(self, cls, me, value, where):
+        # dict.values() / items() / keys() are LIVE views: stored in a local (instead of being consumed on the spot by a
+        # loop or list(...)) they let the container be read after its lock has been released
+        if isinstance(value, ast.Call) and isinstance(value.func, ast.Attribute) and value.func.attr in ("values", "items", "keys"):
+            fv = self.tracked_attr(cls, me, value.func.value)
+            if fv is not None:
+                raise Fail(f"{where}: a live view ({value.func.attr}()) of tracked container {fv} is stored in a local")
         f = self.tracked_attr(cls, me, value)
         if f is not None and f not in ("sequence_number", "ego_position_vector", "position_vector", "tst", "pdr"):
             raise Fail(f"{where}: tracked container {f} is aliased into a local")
